@@ -68,6 +68,8 @@ def run(world_args, steps, scenario=None):
             world.recv(st[1], **(st[2] if len(st) > 2 else {}))
         elif st[0] == 'send':
             world.send(st[1], **(st[2] if len(st) > 2 else {}))
+        elif st[0] == 'send_reuse':
+            world.send_reusing(st[1], **(st[2] if len(st) > 2 else {}))
         elif st[0] == 'idle':
             world.run_idle()
         elif st[0] == 'tick':
@@ -553,6 +555,25 @@ def c05_executions(tier, seed):
         traces.append(run({'rx_routes': rx, 'tx_routes': tx}, steps))
         metas.append({'mode': mode, 'total': total, 'mtu': mtu, 'envelope': env, 'whole': whole, 'ext': ename,
                       'crc': crc, 'case': special, 'flags': flags, 'own_blocks_octets': delta})
+    # an application that keeps one container and replaces the bundle in it between requests: bundles of the same
+    # block layout and different sizes one after the other (fits / needs fragments, in every order of two or three)
+    ext_r = [hop_count(2, 30, 1)]
+    sizes = (35, 600, 90, 1400)
+    seqs = [q for n in (2, 3) for q in itertools.product(sizes, repeat=n) if len(set(q)) == len(q)]
+    if tier == 'quick':
+        seqs = [q for q in seqs if len(q) == 2] + rnd.sample([q for q in seqs if len(q) == 3], 6)
+    for (k, seq) in enumerate(seqs):
+        crc = k % 3
+        mtu = envelope('dtn://other/svc', NODE + 'app', 0, crc, ext_r, max(seq), max(seq) - 1, 'dtn:none') + 40 + 17 * (k % 4)
+        steps = []
+        for (j, total) in enumerate(seq):
+            octets = mk(src=NODE + 'app', dest='dtn://other/svc', rpt='dtn:none', flags=0, crc=crc,
+                        ext=ext_r if k % 2 == 0 else [], pay=payload(total, 31 * k + j), ts=(9000 + 10 * k + j, j))
+            steps += [('send_reuse', octets, {'expect_error': True}), ('idle',)]
+        traces.append(run({'rx_routes': [('dtn://other/', 'forward')],
+                           'tx_routes': [('dtn://other/', 'dtn://other/', mtu)]}, steps))
+        metas.append({'mode': 'send', 'total': list(seq), 'mtu': mtu, 'case': 'one container reused by the application',
+                      'crc': crc, 'ext': 'hop' if k % 2 == 0 else 'none'})
     # (no fragment is handed over while its CL is away or unknown: that hand-over fails and the fragment is lost,
     # which is a matter of CL availability, not of fragmentation - only the forwarding step runs in between)
     # two routes to the same destination over different convergence layers with different MTUs (through the real
